@@ -81,3 +81,10 @@ pub mod c08 {
     include!(concat!(env!("OUT_DIR"), "/c08_gen.rs"));
     pub const RECORD: &str = include_str!(concat!(env!("OUT_DIR"), "/c08_record.json"));
 }
+
+pub mod c07types;
+#[allow(clippy::all)]
+pub mod c07 {
+    include!(concat!(env!("OUT_DIR"), "/c07_gen.rs"));
+    pub const RECORD: &str = include_str!(concat!(env!("OUT_DIR"), "/c07_record.json"));
+}
